@@ -214,7 +214,14 @@ type model struct {
 func newModel(cfg config) *model {
 	m := &model{cfg: cfg, now: time.Unix(1_700_000_000, 0), present: map[int]*entry{}}
 	if cfg.policy == "slru" {
-		for p := 0; p <= cfg.capacity; p++ {
+		// the split between the segments is not documented, so any is accepted - as long as it IS a split: with two
+		// or more entries both the probation and the protected segment hold at least one (a protected segment of
+		// 0 or of all entries is plain LRU / LRU with a useless first hit, not a segmented LRU)
+		lo, hi := 1, cfg.capacity-1
+		if cfg.capacity < 2 {
+			lo, hi = 0, cfg.capacity
+		}
+		for p := lo; p <= hi; p++ {
 			m.slru = append(m.slru, &slruSim{protCap: p})
 		}
 	}
@@ -510,7 +517,7 @@ func (m *model) checkVictim(o op, victim int) string {
 			}
 		}
 		if len(keep) == 0 {
-			return fmt.Sprintf("%s: SLRU evicted key %d, which no segmented-LRU with a protected segment of 0..%d entries would evict now (%s)", o, victim, m.cfg.capacity, m.dump())
+			return fmt.Sprintf("%s: SLRU evicted key %d, which no segmented LRU with two non-empty segments (protected segment of 1..%d entries) would evict now (%s)", o, victim, m.cfg.capacity-1, m.dump())
 		}
 		m.slru = keep
 	}
